@@ -7,7 +7,7 @@
    end of this file. *)
 From Coq Require Import List NArith ZArith Bool.
 Import ListNotations.
-From VF Require Import Base Core Core_lemmas Core_inv Core_props Cluster Cluster_proofs Below_proofs Below_cluster Below_restart Extra_proofs Exchange Heal_proofs.
+From VF Require Import Base Core Core_lemmas Core_inv Core_props Cluster Cluster_proofs Below_proofs Below_cluster Below_restart Extra_proofs Exchange Heal_proofs Heal_cluster.
 
 (* in every reachable state of the cluster, under every schedule, every claim about a member — a record
    held by any node, a broadcast queued anywhere, anything ever put on the network — carries at most
@@ -235,6 +235,37 @@ Proof.
     + left. split; vm_compute; reflexivity.
   - vm_compute. repeat split; reflexivity.
 Qed.
+
+(* an exchange IS a schedule of the cluster model — both nodes put their whole state on the network, then each
+   processes the other's entries in order — so every theorem about every schedule (C05_claims_below_owner, ...)
+   holds across exchanges, and nothing else in the cluster is touched *)
+Theorem C05_exchange_is_a_schedule : forall w i j ci si cj sj,
+  i <> j -> nth_error (wnodes w) i = Some (ci, si) -> nth_error (wnodes w) j = Some (cj, sj) ->
+  let w' := fst (wrun w (exchange_sched w i j)) in
+  nth_error (wnodes w') i = Some (ci, fst (pushpull ci si cj sj)) /\
+  nth_error (wnodes w') j = Some (cj, snd (pushpull ci si cj sj)) /\
+  (forall k, k <> i -> k <> j -> nth_error (wnodes w') k = nth_error (wnodes w) k) /\
+  wpool w' = snapshot sj ++ snapshot si ++ wpool w.
+Proof. exact exchange_is_a_schedule. Qed.
+Print Assumptions C05_exchange_is_a_schedule.
+
+(* ... and in ANY state the cluster can reach (BW: the invariant every schedule from booted nodes with distinct
+   names preserves — failed probes, accusations, timers, loss, duplication, reordering included), two members that
+   have not called Leave and hold each other's address (or nothing) list each other alive with current metadata after
+   the two-exchange schedule *)
+Theorem C05_heal_in_reachable : forall w i j ci si cj sj,
+  BW w -> i <> j -> nth_error (wnodes w) i = Some (ci, si) -> nth_error (wnodes w) j = Some (cj, sj) ->
+  leaving si = false -> leaving sj = false ->
+  forall ri rj, lk si (self ci) = Some ri -> lk sj (self cj) = Some rj ->
+  (0 < rinc ri)%N -> (0 < rinc rj)%N -> vsn_bad (rvsn ri) = false -> vsn_bad (rvsn rj) = false ->
+  below_max (linc si) -> below_max (linc sj) ->
+  heal_prior cj sj ci ri -> heal_prior ci si cj rj ->
+  let w' := fst (wrun w (exchange2_sched w i j)) in
+  exists si' sj', nth_error (wnodes w') i = Some (ci, si') /\ nth_error (wnodes w') j = Some (cj, sj') /\
+    listed sj' (self ci) = Some (raddr ri, rmeta ri) /\ listed si' (self cj) = Some (raddr rj, rmeta rj) /\
+    listed si' (self ci) = Some (raddr ri, rmeta ri) /\ listed sj' (self cj) = Some (raddr rj, rmeta rj).
+Proof. exact heal_in_reachable. Qed.
+Print Assumptions C05_heal_in_reachable.
 
 (* The property as worded ("if the live nodes' member lists still connect them ... then every live node's
    Members() is exactly the live set") is FALSE of the implementation: known finding D-C05, with a
